@@ -1360,6 +1360,9 @@ type err =
 | ELookupKind of string * string * string * string * string
 | ERawString of string
 | EKeyValueList
+| EJsonKey of string
+| EJsonValueList
+| ETagged of string
 | ERenderNonMapping of string
 | EResolving of err
 | EClassNotFound of string
@@ -1694,6 +1697,54 @@ let mapping_of_yaml y =
         false)), (String ((Ascii (true, true, false, false, true, true, true,
         false)), EmptyString))))))))))))))))))))))
 
+(** val try_value_of_yaml : yaml -> value res **)
+
+let rec try_value_of_yaml = function
+| YNull -> Ok VNull
+| YBool b -> Ok (VBool b)
+| YNum n0 -> Ok (VNum n0)
+| YStr s -> Ok (VStr s)
+| YSeq l ->
+  rmap (fun x -> VSeq x)
+    (let rec go = function
+     | [] -> Ok []
+     | x :: xs ->
+       bind (try_value_of_yaml x) (fun v ->
+         bind (go xs) (fun vs -> Ok (v :: vs)))
+     in go l)
+| YMap l ->
+  rmap (fun x -> VMap x)
+    (let rec go l0 acc0 =
+       match l0 with
+       | [] -> Ok acc0
+       | p :: l' ->
+         let (k, v) = p in
+         bind (try_value_of_yaml k) (fun kv ->
+           bind (try_value_of_yaml v) (fun vv ->
+             bind (m_insert acc0 kv vv) (fun acc' -> go l' acc')))
+     in go l [])
+| YTagged (t, _) -> Err (ETagged t)
+
+(** val try_mapping_of_yaml : yaml -> mapping res **)
+
+let try_mapping_of_yaml y =
+  bind (try_value_of_yaml y) (fun v ->
+    match v with
+    | VMap m -> Ok m
+    | _ ->
+      Err (EYamlShape (String ((Ascii (false, false, false, false, true,
+        true, true, false)), (String ((Ascii (true, false, false, false,
+        false, true, true, false)), (String ((Ascii (false, true, false,
+        false, true, true, true, false)), (String ((Ascii (true, false,
+        false, false, false, true, true, false)), (String ((Ascii (true,
+        false, true, true, false, true, true, false)), (String ((Ascii (true,
+        false, true, false, false, true, true, false)), (String ((Ascii
+        (false, false, true, false, true, true, true, false)), (String
+        ((Ascii (true, false, true, false, false, true, true, false)),
+        (String ((Ascii (false, true, false, false, true, true, true,
+        false)), (String ((Ascii (true, true, false, false, true, true, true,
+        false)), EmptyString))))))))))))))))))))))
+
 type jvalue =
 | JNull
 | JBool of bool
@@ -1974,6 +2025,28 @@ let rec print_json = function
        in go l) (String ((Ascii (true, false, true, true, true, true, true,
       false)), EmptyString)))
 
+(** val check_json : value -> unit res **)
+
+let rec check_json = function
+| VMap es ->
+  let rec go = function
+  | [] -> Ok ()
+  | e :: es' ->
+    let (p, _) = e in
+    let (p0, _) = p in
+    let (k, x) = p0 in
+    if (||) ((||) (is_mapping k) (is_sequence k)) (is_vlist k)
+    then Err (EJsonKey (variant k))
+    else bind (check_json x) (fun _ -> go es')
+  in go es
+| VSeq l ->
+  let rec go = function
+  | [] -> Ok ()
+  | x :: xs -> bind (check_json x) (fun _ -> go xs)
+  in go l
+| VList _ -> Err EJsonValueList
+| _ -> Ok ()
+
 (** val raw_string : value -> string res **)
 
 let raw_string v = match v with
@@ -2000,7 +2073,8 @@ let raw_string v = match v with
 | VLit s -> Ok s
 | VNum n0 -> Ok (num_display n0)
 | VList _ -> Err (ERawString (variant v))
-| _ -> bind (to_json v) (fun j -> Ok (print_json j))
+| _ ->
+  bind (check_json v) (fun _ -> bind (to_json v) (fun j -> Ok (print_json j)))
 
 type token =
 | TLit of string
@@ -2284,17 +2358,28 @@ let rec coalesce_rev acc0 = function
 let coalesce ts =
   coalesce_rev ((fst ts) :: []) (snd ts)
 
+(** val mAX_REF_NESTING : nat **)
+
+let mAX_REF_NESTING =
+  S (S (S (S (S (S (S (S (S (S (S (S (S (S (S (S (S (S (S (S (S (S (S (S (S
+    (S (S (S (S (S (S (S (S (S (S (S (S (S (S (S (S (S (S (S (S (S (S (S (S
+    (S (S (S (S (S (S (S (S (S (S (S (S (S (S (S (S (S (S (S (S (S (S (S (S
+    (S (S (S (S (S (S (S (S (S (S (S (S (S (S (S (S (S (S (S (S (S (S (S (S
+    (S (S (S (S (S (S (S (S (S (S (S (S (S (S (S (S (S (S (S (S (S (S (S (S
+    (S (S (S (S (S (S (S
+    O)))))))))))))))))))))))))))))))))))))))))))))))))))))))))))))))))))))))))))))))))))))))))))))))))))))))))))))))))))))))))))))))
+
 (** val reference : nat -> token parser0 **)
 
-let rec reference f x =
-  match f with
-  | O -> PFuel
-  | S f' ->
+let rec reference b x =
+  match b with
+  | O -> PFail
+  | S b' ->
     pbind (ref_open x) (fun r1 _ ->
       pbind
         (many1
           (alt
-            ((reference f') :: ((pmap ref_string (fun x0 -> TLit x0)) :: [])))
+            ((reference b') :: ((pmap ref_string (fun x0 -> TLit x0)) :: [])))
           r1) (fun r2 toks ->
         pbind (ref_close r2) (fun r3 _ -> POk (r3, (TRef (coalesce toks))))))
 
@@ -2339,15 +2424,10 @@ let parse_ref_fuel f s =
            | t0 :: l0 -> POk (EmptyString, (TComb (t :: (t0 :: l0))))))
      | String (_, _) -> PFail)
 
-(** val parse_fuel : string -> nat **)
-
-let parse_fuel s =
-  S (length0 s)
-
 (** val parse_ref : string -> token pres **)
 
 let parse_ref s =
-  parse_ref_fuel (parse_fuel s) s
+  parse_ref_fuel (S mAX_REF_NESTING) s
 
 type parsed =
 | NoRef
@@ -2565,9 +2645,11 @@ let push_key st s =
 let push_mapping_key st key =
   match raw_string key with
   | Ok s -> Ok (push_key st s)
-  | Err _ ->
+  | Err e ->
     (match key with
      | VStr s -> Ok (push_key st s)
+     | VMap _ -> Err e
+     | VSeq _ -> Err e
      | VList _ -> Err EKeyValueList
      | _ -> Panic PPushKey)
   | Panic p -> Panic p
@@ -3520,6 +3602,41 @@ let rec canon_err = function
     (String ((Ascii (true, true, false, false, true, true, true, false)),
     (String ((Ascii (false, false, true, false, true, true, true, false)),
     EmptyString)))))))))))))))))))))))))
+| EJsonKey k ->
+  sp (String ((Ascii (true, false, true, false, false, false, true, false)),
+    (String ((Ascii (false, true, false, true, false, false, true, false)),
+    (String ((Ascii (true, true, false, false, true, true, true, false)),
+    (String ((Ascii (true, true, true, true, false, true, true, false)),
+    (String ((Ascii (false, true, true, true, false, true, true, false)),
+    (String ((Ascii (true, true, false, true, false, false, true, false)),
+    (String ((Ascii (true, false, true, false, false, true, true, false)),
+    (String ((Ascii (true, false, false, true, true, true, true, false)),
+    EmptyString)))))))))))))))) (hx k)
+| EJsonValueList ->
+  String ((Ascii (true, false, true, false, false, false, true, false)),
+    (String ((Ascii (false, true, false, true, false, false, true, false)),
+    (String ((Ascii (true, true, false, false, true, true, true, false)),
+    (String ((Ascii (true, true, true, true, false, true, true, false)),
+    (String ((Ascii (false, true, true, true, false, true, true, false)),
+    (String ((Ascii (false, true, true, false, true, false, true, false)),
+    (String ((Ascii (true, false, false, false, false, true, true, false)),
+    (String ((Ascii (false, false, true, true, false, true, true, false)),
+    (String ((Ascii (true, false, true, false, true, true, true, false)),
+    (String ((Ascii (true, false, true, false, false, true, true, false)),
+    (String ((Ascii (false, false, true, true, false, false, true, false)),
+    (String ((Ascii (true, false, false, true, false, true, true, false)),
+    (String ((Ascii (true, true, false, false, true, true, true, false)),
+    (String ((Ascii (false, false, true, false, true, true, true, false)),
+    EmptyString)))))))))))))))))))))))))))
+| ETagged t ->
+  sp (String ((Ascii (true, false, true, false, false, false, true, false)),
+    (String ((Ascii (false, false, true, false, true, false, true, false)),
+    (String ((Ascii (true, false, false, false, false, true, true, false)),
+    (String ((Ascii (true, true, true, false, false, true, true, false)),
+    (String ((Ascii (true, true, true, false, false, true, true, false)),
+    (String ((Ascii (true, false, true, false, false, true, true, false)),
+    (String ((Ascii (false, false, true, false, false, true, true, false)),
+    EmptyString)))))))))))))) (hx t)
 | ERenderNonMapping k ->
   sp (String ((Ascii (true, false, true, false, false, false, true, false)),
     (String ((Ascii (false, true, false, false, true, false, true, false)),
@@ -4043,14 +4160,43 @@ let rec y_field name = function
    | YStr k -> if eqb1 k name then Some v else y_field name l'
    | _ -> y_field name l')
 
+(** val y_scalar_text : yaml -> string option **)
+
+let y_scalar_text = function
+| YNull ->
+  Some (String ((Ascii (false, true, true, true, false, true, true, false)),
+    (String ((Ascii (true, false, true, false, true, true, true, false)),
+    (String ((Ascii (false, false, true, true, false, true, true, false)),
+    (String ((Ascii (false, false, true, true, false, true, true, false)),
+    EmptyString))))))))
+| YBool b ->
+  if b
+  then Some (String ((Ascii (false, false, true, false, true, true, true,
+         false)), (String ((Ascii (false, true, false, false, true, true,
+         true, false)), (String ((Ascii (true, false, true, false, true,
+         true, true, false)), (String ((Ascii (true, false, true, false,
+         false, true, true, false)), EmptyString))))))))
+  else Some (String ((Ascii (false, true, true, false, false, true, true,
+         false)), (String ((Ascii (true, false, false, false, false, true,
+         true, false)), (String ((Ascii (false, false, true, true, false,
+         true, true, false)), (String ((Ascii (true, true, false, false,
+         true, true, true, false)), (String ((Ascii (true, false, true,
+         false, false, true, true, false)), EmptyString))))))))))
+| YNum n0 -> Some (num_display n0)
+| YStr s -> Some s
+| _ -> None
+
 (** val y_strings : yaml list -> string list option **)
 
 let rec y_strings = function
 | [] -> Some []
 | y :: l' ->
-  (match y with
-   | YStr s -> option_map (fun x -> s :: x) (y_strings l')
-   | _ -> None)
+  (match y_scalar_text y with
+   | Some s ->
+     (match y_strings l' with
+      | Some ss -> Some (s :: ss)
+      | None -> None)
+   | None -> None)
 
 (** val y_string_list : string -> yaml option -> string list res **)
 
@@ -4151,7 +4297,7 @@ let node_of_yaml loc = function
         let classes' =
           fold_left u_append (map (abs_class_name loc) (u_from classes)) []
         in
-        bind (mapping_of_yaml pdoc) (fun params -> Ok { n_apps =
+        bind (try_mapping_of_yaml pdoc) (fun params -> Ok { n_apps =
           (r_from apps); n_classes = classes'; n_params = params; n_loc =
           loc }))))
 | _ ->
